@@ -17,6 +17,8 @@ pub trait FpApi:
     + core::ops::Mul<Output = Self>
     + core::ops::Neg<Output = Self>
 {
+    /// -&a (negation by reference)
+    fn neg_ref(&self) -> Self;
     const NAME: &'static str;
     fn modulus() -> &'static N;
     /// from a canonical value < p, through the 32-byte constructor
@@ -64,6 +66,9 @@ impl FpApi for Fq {
     const NAME: &'static str = "Fq";
     fn modulus() -> &'static N {
         refmodel::q()
+    }
+    fn neg_ref(&self) -> Self {
+        -self
     }
     fn bytes(&self) -> [u8; 32] {
         self.to_slice()
@@ -115,6 +120,9 @@ impl FpApi for Fr {
     const NAME: &'static str = "Fr";
     fn modulus() -> &'static N {
         refmodel::r()
+    }
+    fn neg_ref(&self) -> Self {
+        -self
     }
     fn bytes(&self) -> [u8; 32] {
         self.to_slice()
